@@ -416,6 +416,10 @@ def check(prop, tier, seed):
     # ---- 6. verdict --------------------------------------------------------------------------
     for sig, summary in sorted(ctx.known_hits.items()):
         print(f"KNOWN-FINDING: property={prop} {sig}: {summary}")
+    # failing inputs first; a correspondence / obligation that no longer checks is only reported as such
+    # (no-failing-input-found) when no failing input was found by any stream
+    with_input = [v for v in ctx.violations if v[0] is not None]
+    ctx.violations = with_input if with_input else ctx.violations
     for failure, path, tail in ctx.violations[:5]:
         rel = os.path.relpath(path, C.VERIF)
         print(f"VIOLATION property={prop} replay={rel}" + (f" {tail}" if tail else ""))
